@@ -136,9 +136,9 @@ def audit(prop_id: str, timeout=1800):
     res["log"] = out[-4000:]
     seen = {}
     # "'X' depends on axioms: [a, b]" (possibly wrapped over lines) / "'X' does not depend on any axioms"
-    for m in re.finditer(r"'([^']+)' depends on axioms: \[([^\]]*)\]", out):
+    for m in re.finditer(r"'(\S+)' depends on axioms: \[([^\]]*)\]", out):
         seen[m.group(1)] = {a.strip() for a in m.group(2).replace("\n", " ").split(",") if a.strip()}
-    for m in re.finditer(r"'([^']+)' does not depend on any axioms", out):
+    for m in re.finditer(r"'(\S+)' does not depend on any axioms", out):
         seen[m.group(1)] = set()
     for n in names:
         if n not in seen:
